@@ -14,13 +14,16 @@ import (
 	"path/filepath"
 	"sort"
 	"strings"
+	"sync/atomic"
 	"testing/fstest"
 
 	"gopkg.in/yaml.v3"
 
 	"github.com/open-policy-agent/opa/v1/ast"
 	"github.com/open-policy-agent/opa/v1/bundle"
+	"github.com/open-policy-agent/opa/v1/metrics"
 	"github.com/open-policy-agent/opa/v1/rego"
+	"github.com/open-policy-agent/opa/v1/topdown/print"
 
 	rbundle "github.com/styrainc/regal/bundle"
 	"github.com/styrainc/regal/pkg/builtins"
@@ -59,6 +62,35 @@ type Workspace struct {
 	Args []string `json:"args,omitempty"`
 	// MaxVariants: cap on the number of argument orders that are run (0 = no cap); for workspaces with big files
 	MaxVariants int `json:"max_variants,omitempty"`
+	// round 3 (all optional) ------------------------------------------------------------------------------------
+	// Opts: optional features of the linter that change how the evaluation is set up, not what is linted:
+	// "metrics" "instrument" "profile" "basecache" "printhook" "debug" "export-aggregates" "collect-query"
+	Opts []string `json:"opts,omitempty"`
+	// Manifests: directory (relative to the workspace root, "" = the root) -> rego_version of a .manifest file there
+	Manifests map[string]int `json:"manifests,omitempty"`
+	// Roots: project.roots of the user configuration, paths spelled as given (legacy/, ./legacy, legacy/nested ...)
+	Roots []Root `json:"roots,omitempty"`
+	// ProjectVersion: project.rego-version of the user configuration (nil = absent)
+	ProjectVersion *int `json:"project_version,omitempty"`
+	// Ignore: ignore.files of the user configuration
+	Ignore []string `json:"ignore,omitempty"`
+	// RuleLevels: "category/title" -> level of the user configuration (a map of maps on the Go side)
+	RuleLevels map[string]string `json:"rule_levels,omitempty"`
+	// Repeat: at least this many identical Lint calls (same argument list) per process (0 = the usual few)
+	Repeat int `json:"repeat,omitempty"`
+	// Family: free text naming the generator the workspace comes from (evidence)
+	Family string `json:"family,omitempty"`
+}
+
+// Root: one entry of project.roots
+type Root struct {
+	Path    string `json:"path"`
+	Version int    `json:"version"`
+}
+
+// Versioned: the workspace declares Rego versions per directory (the linter then needs the path prefix)
+func (ws Workspace) Versioned() bool {
+	return len(ws.Manifests) > 0 || len(ws.Roots) > 0 || ws.ProjectVersion != nil
 }
 
 const CustomAggRule = `# METADATA
@@ -207,6 +239,19 @@ func (ws Workspace) Write(root string) error {
 			return err
 		}
 	}
+	for d, v := range ws.Manifests {
+		p := filepath.Join(root, d, ".manifest")
+		if err := os.MkdirAll(filepath.Dir(p), 0o755); err != nil {
+			return err
+		}
+		rt := d
+		if rt == "" {
+			rt = "."
+		}
+		if err := os.WriteFile(p, []byte(fmt.Sprintf(`{"roots": [%q], "rego_version": %d}`, rt, v)), 0o644); err != nil {
+			return err
+		}
+	}
 	return nil
 }
 
@@ -225,9 +270,16 @@ func (ws Workspace) UserConfigYAML() string {
 			b.WriteString("capabilities:\n  from:\n    engine: opa\n    version: " + ws.CapsVersion + "\n")
 		}
 	}
-	if len(ws.RuleIgnore) > 0 {
+	if len(ws.RuleIgnore) > 0 || len(ws.RuleLevels) > 0 {
 		byCat := map[string][]string{}
 		for k := range ws.RuleIgnore {
+			cat, title, _ := strings.Cut(k, "/")
+			byCat[cat] = append(byCat[cat], title)
+		}
+		for k := range ws.RuleLevels {
+			if _, dup := ws.RuleIgnore[k]; dup {
+				continue
+			}
 			cat, title, _ := strings.Cut(k, "/")
 			byCat[cat] = append(byCat[cat], title)
 		}
@@ -241,9 +293,15 @@ func (ws Workspace) UserConfigYAML() string {
 			b.WriteString("  " + c + ":\n")
 			sort.Strings(byCat[c])
 			for _, t := range byCat[c] {
-				b.WriteString("    " + t + ":\n      ignore:\n        files:\n")
-				for _, pat := range ws.RuleIgnore[c+"/"+t] {
-					b.WriteString("          - \"" + pat + "\"\n")
+				b.WriteString("    " + t + ":\n")
+				if lv, ok := ws.RuleLevels[c+"/"+t]; ok {
+					b.WriteString("      level: " + lv + "\n")
+				}
+				if pats, ok := ws.RuleIgnore[c+"/"+t]; ok {
+					b.WriteString("      ignore:\n        files:\n")
+					for _, pat := range pats {
+						b.WriteString("          - \"" + pat + "\"\n")
+					}
 				}
 			}
 		}
@@ -254,19 +312,81 @@ func (ws Workspace) UserConfigYAML() string {
 // UserConfig of a workspace (nil for the defaults).
 func (ws Workspace) UserConfig() (*config.Config, error) {
 	y := ws.UserConfigYAML()
-	if y == "" {
+	if y == "" && !ws.Versioned() && len(ws.Ignore) == 0 {
 		return nil, nil
 	}
 	var c config.Config
-	if err := yaml.Unmarshal([]byte(y), &c); err != nil {
-		return nil, err
+	if y != "" {
+		if err := yaml.Unmarshal([]byte(y), &c); err != nil {
+			return nil, err
+		}
+	}
+	if len(ws.Roots) > 0 || ws.ProjectVersion != nil {
+		pr := &config.Project{}
+		if ws.ProjectVersion != nil {
+			v := *ws.ProjectVersion
+			pr.RegoVersion = &v
+		}
+		if len(ws.Roots) > 0 {
+			roots := []config.Root{}
+			for _, r := range ws.Roots {
+				v := r.Version
+				roots = append(roots, config.Root{Path: r.Path, RegoVersion: &v})
+			}
+			pr.Roots = &roots
+		}
+		c.Project = pr
+	}
+	if len(ws.Ignore) > 0 {
+		c.Ignore.Files = append([]string{}, ws.Ignore...)
 	}
 	return &c, nil
 }
 
 // NewLinter builds the real linter for the workspace (no input yet).
-func (ws Workspace) NewLinter() (linter.Linter, error) {
+func (ws Workspace) NewLinter() (linter.Linter, error) { return ws.NewLinterAt("") }
+
+// DiscardHook: a print hook that only counts
+type DiscardHook struct{ n atomic.Int64 }
+
+func (h *DiscardHook) Print(print.Context, string) error { h.n.Add(1); return nil }
+
+// AllOpts: the optional features NewLinterAt knows
+var AllOpts = []string{"metrics", "instrument", "profile", "basecache", "printhook", "debug", "export-aggregates", "collect-query"}
+
+// NewLinterAt: the same for a workspace written under root (needed when directories carry Rego versions: the
+// versions map is only consulted with a path prefix, as `regal lint` sets it when it finds a .regal directory)
+func (ws Workspace) NewLinterAt(root string) (linter.Linter, error) {
 	l := linter.NewLinter()
+	if ws.Versioned() && root != "" {
+		abs, err := filepath.Abs(root)
+		if err != nil {
+			return l, err
+		}
+		l = l.WithPathPrefix(abs)
+	}
+	for _, o := range ws.Opts {
+		switch o {
+		case "metrics":
+			l = l.WithMetrics(metrics.New())
+		case "instrument":
+			l = l.WithInstrumentation(true)
+		case "profile":
+			l = l.WithProfiling(true)
+		case "basecache":
+			l = l.WithBaseCache(NewBaseCache())
+		case "printhook":
+			l = l.WithPrintHook(&DiscardHook{})
+		case "debug":
+			l = l.WithDebugMode(true)
+		case "export-aggregates":
+			l = l.WithExportAggregates(true)
+		case "collect-query":
+			l = l.WithCollectQuery(true)
+		default:
+			return l, fmt.Errorf("unknown linter option %q", o)
+		}
+	}
 	uc, err := ws.UserConfig()
 	if err != nil {
 		return l, err
